@@ -22,7 +22,7 @@ type c05Rec struct {
 }
 
 type c05Edit struct {
-	Kind string `json:"kind"` // none | flip | drop | dup | swap | trunc | inject
+	Kind string `json:"kind"` // none | flip | drop | dup | swap | trunc | inject | badpad
 	Rec  int    `json:"rec,omitempty"`
 	Off  int    `json:"off,omitempty"`
 	Mask int    `json:"mask,omitempty"`
@@ -32,10 +32,10 @@ type c05Edit struct {
 }
 
 type c05Input struct {
-	Target string    `json:"target"` // which real endpoint receives: server | client
-	Suite  uint16    `json:"suite"`
-	Recs   []c05Rec  `json:"recs"`
-	Edit   c05Edit   `json:"edit"`
+	Target string   `json:"target"` // which real endpoint receives: server | client
+	Suite  uint16   `json:"suite"`
+	Recs   []c05Rec `json:"recs"`
+	Edit   c05Edit  `json:"edit"`
 }
 
 func c05Content(r c05Rec, i int) (typ byte, frag []byte, coq string) {
@@ -108,7 +108,21 @@ func c05AddCase(out *emit.Out, scenario string, in c05Input) {
 	// seal the genuine records
 	var wires [][]byte
 	var coqG []string
+	var forged []byte
 	for i, r := range in.Recs {
+		if in.Edit.Kind == "badpad" && i == in.Edit.Rec {
+			// a record for this very sequence number with a valid MAC and a full block of padding in which one
+			// byte other than the last is wrong (Off selects it): not a record the sender ever produces
+			body := make([]byte, 16*(1+in.Edit.N%3))
+			for j := range body {
+				body[j] = byte(0xC0 + j)
+			}
+			forged = p.SealBadPadding(puppet.RecApp, body, func(pad []byte) {
+				if len(pad) > 1 {
+					pad[in.Edit.Off%(len(pad)-1)] ^= byte(in.Edit.Mask | 1)
+				}
+			})
+		}
 		typ, frag, cq := c05Content(r, i)
 		w := p.Seal(typ, frag)
 		wires = append(wires, w)
@@ -147,6 +161,12 @@ func c05AddCase(out *emit.Out, scenario string, in c05Input) {
 		stream = cat(recs)
 		if e.At < len(stream) {
 			stream = stream[:e.At]
+		}
+	case "badpad":
+		if forged != nil && e.Rec <= len(recs) {
+			stream = cat(append(append(append([][]byte{}, recs[:e.Rec]...), forged), recs[e.Rec:]...))
+		} else {
+			stream = cat(recs)
 		}
 	case "inject":
 		body := make([]byte, e.N)
@@ -197,7 +217,7 @@ func c05AddCase(out *emit.Out, scenario string, in c05Input) {
 	}
 	out.Add(emit.Case{Scenario: scenario + "/" + mode, Trivial: e.Kind == "none", Input: in, Direct: direct,
 		Observed: map[string]interface{}{"delivered_len": len(o.Read), "err": o.ReadErr, "alerts_sent": o.Alerts, "second_read": o.ReadErr2, "second_read_n": o.Read2N},
-		Coq: fmt.Sprintf("AttackCase %s [%s]\n   %s %s %s %s %s", mode, strings.Join(coqG, ";\n   "), emit.Bytes(stream), emit.Bytes(o.Read), end, emit.Bool(latched), emit.Bool(e.Kind != "none"))})
+		Coq:      fmt.Sprintf("AttackCase %s [%s]\n   %s %s %s %s %s", mode, strings.Join(coqG, ";\n   "), emit.Bytes(stream), emit.Bytes(o.Read), end, emit.Bool(latched), emit.Bool(e.Kind != "none"))})
 }
 
 func runC05(p params) error {
@@ -300,6 +320,18 @@ func runC05(p params) error {
 				continue
 			}
 			add("inject", base, c05Edit{Kind: "inject", Rec: rec, Type: typ, N: []int{0, 1, 2, 16, 48, 64, 100}[r.IntN(7)]})
+		}
+	}
+	// forged CBC records with a valid MAC whose padding is wrong in one byte other than the last
+	// (what a receiver that checks only the padding-length byte would accept); CBC suites, both roles
+	for _, su := range []uint16{0xe013, 0xe011} {
+		for _, t := range []string{"server", "client"} {
+			for rec := 0; rec < 3; rec++ {
+				for _, off := range []int{0, 7, 14} {
+					c05AddCase(out, "bad-padding-valid-mac", c05Input{Target: t, Suite: su, Recs: base,
+						Edit: c05Edit{Kind: "badpad", Rec: rec, Off: off, Mask: []int{0x01, 0x80, 0xfe}[(rec+off)%3], N: rec + off}})
+				}
+			}
 		}
 	}
 	add("inject-oversize", base, c05Edit{Kind: "inject", Rec: 1, Type: 23, N: 18433})
